@@ -873,13 +873,22 @@ func (e *Env) Quiesce() (bool, string) {
 // connection and queueing the request), by looking at the goroutine dump.
 func (e *Env) callersParked(s envSnap) bool {
 	inflight := s.started - s.returned
-	if inflight == 0 && !e.timers {
+	if inflight == 0 && !e.timers && s.conns <= 1 {
 		return true
 	}
 	buf := make([]byte, 1<<20)
 	n := runtime.Stack(buf, true)
 	waiting := int64(0)
 	for _, g := range strings.Split(string(buf[:n]), "\n\n") {
+		body := g
+		if i := strings.Index(body, "\ncreated by "); i >= 0 {
+			body = body[:i]
+		}
+		if strings.Contains(body, "http2.(*Dialer).Dial") || strings.Contains(body, "http2.(*Dialer).tryDial") || strings.Contains(body, "http2.(*Conn).Handshake") {
+			// a connection is being set up (the client also dials replacements on its own): its SETTINGS exchange
+			// is under way although every established connection is idle
+			return false
+		}
 		if strings.Contains(g, "http2.(*Ctx).fireTimeout") {
 			// a request timer is at work: the caller may already have its error while the RST_STREAM
 			// for the stream is not queued yet (seen as a non-reproducible "starved" under load)
